@@ -445,7 +445,7 @@ def run(ctx):
         "A walk is given an item budget of 4 x (predicted length) + 50 (random trees: %d, checked by the Judge to exceed the "
         "prediction) and 20 s wall clock (30 s when re-run alone); exceeding either is an observation that contradicts the "
         "finite prediction, not an infrastructure error." % RANDOM_CAP,
-        "Unreadable directories, special files, overlapping roots, non-UTF-8 names and Windows/MSYS separators are not "
+        "Overlapping roots (`.` with `a`, the same root in two spellings) are independent walks: what lies under both is offered once per root (code-derived; `exactly once` is per root). Unreadable directories, special files, non-UTF-8 names and Windows/MSYS separators are not "
         "modelled; the process runs as root, so permission errors cannot be provoked.",
         "The walker is triggered in the real binary by giving it a pty slave as stdin (util.IsTty) in filter mode "
         "(-f '' --print0); the interactive path shares ReadSource/readFiles.",
